@@ -41,6 +41,12 @@ def vc_task(task):
     return res
 
 
+def shared_c02_task(task):
+    import props.c02 as p02
+    from pyvc.runner import relabel
+    return relabel(p02.vc_task(task), 'C14')
+
+
 def main(argv=None):
     chk = Check('C14', 'proof', argv)
     source(EXTRA)
@@ -53,10 +59,15 @@ def main(argv=None):
                           'shape': sh.as_dict(), 'weight': sh.n * sh.B,
                           # the row clause of deal_board needs ~25 s on an idle core: budget with head-room
                           'timeout_ms': 300000 if chk.tier == 'thorough' else (150000 if name == 'deal_board' else 30000)})
+    if not only:
+        import props.c02 as p02
+        for sh in p02.shapes(chk.tier, 'begin_chips_pushing'):
+            tasks.append({'module': 'props.c14', 'fn': 'shared_c02_task', 'name': f'_begin_chips_pushing/n{sh.n}b{sh.B}t{sh.T}', 'contract': 'begin_chips_pushing',
+                          'shape': sh.as_dict(), 'timeout_ms': 120000 if chk.tier == 'thorough' else 40000, 'weight': sh.n * sh.T})
     chk.run_tasks(tasks)
     chk.assumptions += [
         'runout_count is "what the players who have spoken so far agree on" by induction over the selections (fresh hand: None)',
-        'each pot is divided evenly between the b*r boards: proved under C02 (_begin_chips_pushing); no card appears twice: C06',
+        'each pot is divided evenly between the b*r boards: the C02 contract of _begin_chips_pushing, discharged here too (shared obligations); no card appears twice: C06',
         '"each board complete at the end": every dealing pass of a street appends exactly b cards per position (deal_board clause) and the '
         'streets after the all-in are dealt r times (_end_showdown / _end_bet_collection clauses); the sum over the passes is an induction '
         'over the log that is not machine-checked here',
